@@ -407,7 +407,7 @@ def t_longline(shard, nshards, seed, ev, known, n=40):
 def plan(tier):
     q = tier == "quick"
     return [
-        Task("runs", t_runs, shards=8 if q else 16, n=700 if q else 20000),
+        Task("runs", t_runs, shards=8 if q else 16, n=700 if q else 12000),
         Task("standalone", t_standalone, shards=2 if q else 16, n=600 if q else 20000),
         Task("longline", t_longline, shards=2 if q else 8, n=25 if q else 800),
     ]
